@@ -5,6 +5,7 @@ import (
 	"fmt"
 	"math/rand"
 
+	"github.com/emersion/go-webdav/verifharness/doubles"
 	"github.com/emersion/go-webdav/verifharness/fw"
 )
 
@@ -86,6 +87,14 @@ func reqForms() []reqForm {
 // of the request target.
 var respelledForms = []reqForm{
 	{"PROPFIND", "prop", "1"}, {"PROPFIND", "allprop", "0"}, {"MKCOL", "empty", ""}, {"DELETE", "", ""}, {"GET", "", ""}, {"REPORT", "query", ""},
+}
+
+// reshapedForms are the request forms repeated under every other presentation
+// of the request body (doubles.BodyShapes): the ones whose handling starts
+// with "is there a body?" or that decode one.
+var reshapedForms = []reqForm{
+	{"MKCOL", "empty", ""}, {"MKCOL", "body", ""}, {"PUT", "none", ""}, {"PROPFIND", "nobody", "1"}, {"PROPFIND", "prop", "0"},
+	{"REPORT", "query", ""}, {"REPORT", "multiget", ""}, {"DELETE", "", ""},
 }
 
 // openMethods makes the method axis open: tokens the handlers have no case
@@ -228,6 +237,9 @@ func randCase(r *rand.Rand) Case {
 	if r.Intn(3) == 0 {
 		cs.Spelling = spellings[r.Intn(len(spellings))]
 	}
+	if r.Intn(4) == 0 {
+		cs.Shape = doubles.BodyShapes[r.Intn(len(doubles.BodyShapes))]
+	}
 	return cs
 }
 
@@ -245,7 +257,7 @@ func execCase(c *fw.Ctx, cs *Case) {
 func run(c *fw.Ctx) {
 	idx := 0
 	forms := reqForms()
-	nStruct, nChain, nSpell, nMulti, nOpen := 0, 0, 0, 0, 0
+	nStruct, nChain, nSpell, nMulti, nOpen, nShape := 0, 0, 0, 0, 0, 0
 	oforms := openForms()
 	// Structural product, enumerated completely in both tiers.
 	for _, server := range []string{"caldav", "carddav"} {
@@ -309,6 +321,19 @@ func run(c *fw.Ctx) {
 										nSpell++
 									}
 								}
+								// ... and under every other presentation of the request body.
+								for _, f := range reshapedForms {
+									for _, sh := range doubles.BodyShapes {
+										if c.Mine(idx) {
+											cs := base
+											cs.Kind, cs.Method, cs.Form, cs.Depth = "req", f.method, f.form, f.depth
+											cs.Level, cs.Target, cs.Slash, cs.Shape = cl.level, cl.target, slash, sh
+											execReq(c, &cs)
+										}
+										idx++
+										nShape++
+									}
+								}
 							}
 						}
 						// One handler serving two users; one layout style per
@@ -331,8 +356,9 @@ func run(c *fw.Ctx) {
 		"x {%d (level,target) cells x 2 trailing-slash spellings x %d request forms (16 methods/variants + PROPFIND 3 bodies x 4 Depth values) = %d requests; %d client discovery chains from 4 entry points}; "+
 		"%d requests repeat the rows with teeth (%d request forms) under 3 equivalent escapings of the request target (every byte %%XX upper-case, every byte %%xx lower-case, first byte of each segment escaped + sub-delims raw); "+
 		"%d multi-user sessions (one handler, two users from the request context: chains and %d requests alternating A,B, then the same concurrently); "+
-		"%d requests of the open method axis (%d further method tokens, %d forms counting those repeated with a creation-style body, every cell, one layout style per name set and prefix)",
-		len(nameSets), len(layStyles), len(cells), len(forms), nStruct, nChain, nSpell, len(respelledForms), nMulti, len(sessionSteps(&Case{})), nOpen, len(openMethods), len(oforms)))
+		"%d requests of the open method axis (%d further method tokens, %d forms counting those repeated with a creation-style body, every cell, one layout style per name set and prefix); "+
+		"%d requests repeat %d body-sensitive request forms under the 4 other presentations of the request body (unknown length, one byte per Read with (0, nil) for a zero-length Read, (0, nil) before every delivery, last bytes together with io.EOF)",
+		len(nameSets), len(layStyles), len(cells), len(forms), nStruct, nChain, nSpell, len(respelledForms), nMulti, len(sessionSteps(&Case{})), nOpen, len(openMethods), len(oforms), nShape, len(reshapedForms)))
 
 	// Random names and random cells on top.
 	n := c.Pick(40000, 600000)
